@@ -18,8 +18,12 @@ of the behaviour, the store is the real LocalPipelineIo behind a proxy that inje
 (BaseException = crash, OSError = failed transfer) at the entry of a put_item, after k bytes of its source
 stream (so the real put_item leaves a really truncated item) or at its exit; at every hook the real store
 (absent / partial / complete by byte comparison) and the location of the image directory are compared with
-the spec state.  At every quiescent point the property's sentences are evaluated on the REAL store and
-directories, and the real `pipeline refresh` is run to see which images it skips.
+the spec state (differences = CONFORMANCE-DRIFT).  At every quiescent point the property's sentences are
+evaluated on the REAL store and directories (these are the VIOLATION monitors; TLC's evaluation of the same
+formulas in the spec state is carried along), and the real `pipeline refresh` (cli.refresh_impl with a fake
+image source) is run to see which images it skips.  The walk is level-synchronised over nodes
+(spec idle state, byte contents of work dir + store): paths that meet in the same node share the replay of
+their continuation and are counted individually.  `./check C18 --replay FILE` re-executes one recorded history.
 """
 import contextlib
 import copy
@@ -29,7 +33,6 @@ import json
 import os
 import re
 import shutil
-import sys
 import types
 
 from lib import repo, tla
